@@ -731,10 +731,13 @@ class LDAPServer(LDAPSession):
             ),
             server_sasl_creds=sasl_creds,
         )
+        msg_id = self._send(msg)
+
+        # Only a response that was accepted completes the bind.
         if result_code != LDAPResultCode.SASL_BIND_IN_PROGRESS:
             self.state = SessionState.OPENED
 
-        return self._send(msg)
+        return msg_id
 
     def extended_response(
         self,
